@@ -269,6 +269,21 @@ class Item:
             self._ins(m.end(), it + ': ')
         return self
 
+    def body_start_all(self, ghost):
+        """Ghost text at the start of the body of every fn of the item."""
+        s = self._freeze()
+        names = []
+        for m in find_code(s.text, s.mask, r'\bfn\s+(\w+)', regex=True):
+            names.append(m.group(1))
+        seen = {}
+        for nm in names:
+            k = seen.get(nm, 0)
+            seen[nm] = k + 1
+            st, sig_end, bo, bc = s.find_fn(nm, nth=k)
+            if bo is not None:
+                self._ins(bo + 1, '\n' + ghost.rstrip() + '\n', prio=4)
+        return self
+
     def attr(self, text, fname=None):
         """Verifier attribute in front of a fn (ghost only), e.g. #[verifier::loop_isolation(false)]."""
         s, (st, sig_end, bo, bc) = self._fn_span(fname)
